@@ -166,7 +166,9 @@ def main(tier):
     for text, v, o in zip(cs, verdicts, obs):
         tally[v] = tally.get(v, 0) + 1
         head = v.split(":")[0]
-        if head == "violation":
+        if head == "violation" and len(V.violations) >= 40:
+            V.add(f"literal:{text[:40]!r}", {"literal": text, "verdict": v, "note": "cause not analysed: 40 unlisted violations already"})
+        elif head == "violation":
             # (only texts of digits and points are ever run; a literal next to an arbitrary element is not)
             # the literal text itself, without the case markers (flag V / context)
             bare = text[2:] if text.startswith(VMARK) else text[3:] if text.startswith(CMARK) else text
